@@ -10,7 +10,7 @@ CHECKS = {
          "runtime monitor: cross-layer set equality at every step + quiescence (bounded progress) check"),
  "C03": (SIM, "4, 5/C03", "order check of execution starts against dependency finishes over recorded histories of random DAG workloads with failures/cancels",
          "runtime monitor: happens-before check of starts vs. dependency finishes; propagation check at quiescence"),
- "C04": ("E3 allocator lab", "5/C04", "shadow ledger over every grant/release of the real ResourceAllocator on random descriptors and operation sequences with allocate-then-release probes on every reached free state (12 shards); plus, in the cluster simulation (4 shards), the ledger of the allocations of all executions that are open at the same time on one simulated worker (rule A6: what the real WorkerState handed to the launcher, incl. the hand-over of an allocation to a backlog task)",
+ "C04": ("E3 allocator lab", "5/C04", "shadow ledger over every grant/release of the real ResourceAllocator on random descriptors and operation sequences with allocate-then-release probes on every reached free state (12 shards); plus, in the cluster simulation (4 shards), the ledger of the allocations of all executions that are open at the same time on one simulated worker (rule A6: what the real WorkerState handed to the launcher, incl. the hand-over of an allocation to a backlog task); plus the launcher lab (1-2 shards): real `sh` processes started by the real WorkerState + HqTaskLauncher dump their environment, and HQ_RESOURCE_VALUES_* / HQ_CPUS / CUDA_VISIBLE_DEVICES must name exactly the indices the worker holds for that task (rule A7)",
          "runtime monitor: shadow ledger (conservation / exclusivity) over allocator operation sequences"),
  "C05": (SIM, "4, 5/C05", "oracle's own arithmetic over core snapshots at every step boundary (placed tasks vs. worker resources, lifetime at the placing round, multi-node sets) + independent re-statement of the cross-structure invariants",
          "runtime monitor: structural invariant + resource-sum oracle on core snapshots at quiescent points"),
@@ -40,7 +40,7 @@ CHECKS = {
          "runtime monitor: invariant + call-log oracle over random autoalloc histories with a simulated batch system"),
  "C18": ("E5 autoalloc lab", "5/C18", "per-allocation automaton over snapshots, Allocation* events and the handler call log for the same histories (lifecycle-heavy mix)",
          "runtime monitor: per-allocation lifecycle automaton + worker-set ledger"),
- "C19": ("E6 stream lab", "5/C19", "the real worker-side streamer (one StreamerRef per simulated worker, several writer files per directory) is driven with random task/instance sets, chunkings and interleavings, files of crashed workers are cut at random offsets, and the directory is read back through the real OutputLog cat/export/summary with fd 1 redirected; bytes compared with the written ones per task and channel, twice (second time with renamed, reordered files)",
+ "C19": ("E6 stream lab", "5/C19", "the real worker-side streamer (one StreamerRef per simulated worker, several writer files per directory) is driven with random task/instance sets, chunkings and interleavings, files of crashed workers are cut at random offsets, and the directory is read back through the real OutputLog cat/export/summary with fd 1 redirected; bytes compared with the written ones per task and channel, twice (second time with renamed, reordered files); plus the launcher lab (3 shards): real processes run by the real WorkerState + HqTaskLauncher write known bytes to piped stdout/stderr, resend_stdio streams them, and the directory is read back the same way",
          "runtime monitor: byte-exact round-trip oracle over random stream directories written and read by the real code"),
  "C20": ("E7 handshake lab", "5/C20", "two real do_authentication futures joined through a man-in-the-middle that passes, replays, reflects, splices and modifies the four frames; configuration matrix and single-frame manipulations enumerated exhaustively, multi-frame manipulations sampled",
          "runtime monitor: acceptance oracle over adversarially manipulated real handshakes"),
@@ -49,7 +49,7 @@ LEVEL_NOTE = {
  SIM: "held on the executions produced, never 'verified'; trusted: registration/disconnect glue restated in tako::verif::SimServer, fake task launcher, FIFO-per-link transport model, HiGHS determinism for replay",
  "E3 allocator lab": "held on the operation sequences produced; the allocator is driven directly through tako::verif::AllocatorLab with well-formed requests; brute-force reference and ledger are small but trusted",
  "E2 scheduling-round lab": "only decisions whose MILP solve completed (optimal) are judged; the MILP encoding is approximate for two or more request classes (23 corpus members fail on the unchanged tree and are listed as known findings), so outside the corpus only single-class instances bear a verdict; HiGHS is deterministic for a given model, which the instance keys rely on",
- "E6 stream lab": "chunks enter at StreamSender::send_data with the chunk sizes and end markers the launcher produces; the process-spawning launcher (resend_stdio over pipes) is not driven; a cut file only holds superseded instances",
+ "E6 stream lab": "E6: chunks enter at StreamSender::send_data; a cut file only holds superseded instances. Launcher lab: real processes and pipes through resend_stdio, but no worker loss (no superseded instances there)",
  "E7 handshake lab": "adversary without key material; frames decoded with mirror structs of the crate-private messages",
  "E5 autoalloc lab": "the batch system is simulated (the real PBS/Slurm handlers are out of scope); demand is judged only where unambiguous; worker notifications include losses before/without a connect and duplicated losses",
  "E4 journal lab": "exhaustive over the record boundaries of the journals produced (journals themselves are sampled); reference fold is small but trusted; queue records are not produced inside E1",
